@@ -2,6 +2,7 @@ package props
 
 import (
 	"fmt"
+	"github.com/go-kid/ioc/syslog"
 	"reflect"
 	"strings"
 
@@ -221,6 +222,10 @@ func (p c16) Run(c *core.Ctx) {
 	}
 	if c.Index%10 == 4 {
 		p.retried(c)
+		return
+	}
+	if c.Index%10 == 2 {
+		p.otherTags(c)
 		return
 	}
 	cfg := genC16Config(c)
@@ -560,4 +565,52 @@ func (p c16) changing(c *core.Ctx) {
 		return
 	}
 	c.Nontrivial("changing|" + tag + "|" + fmt.Sprint(initial) + updated)
+}
+
+// otherTags: "any tag text" - placeholders in the tag of a user-defined tag processor (own tag, own
+// property type) and in a logger tag are replaced like everywhere else.
+func (p c16) otherTags(c *core.Ctx) {
+	cfg := genC16Config(c)
+	b, _ := yaml.Marshal(cfg.tree)
+	text := genC16Text(c, 0)
+	want, _, _, status := modelResolve(text, cfg.tree)
+	if status != "ok" || strings.ContainsAny(want, ",") || strings.ContainsAny(text, ",") {
+		return // only resolvable texts whose replacement is a plain value part are judged here
+	}
+	fields := []world.FieldSpec{
+		{Name: "F", Type: reflect.TypeOf(""), Tag: fmt.Sprintf("label:%q", text)},
+		{Name: "L", Type: reflect.TypeOf((*syslog.Logger)(nil)).Elem(), Tag: fmt.Sprintf("logger:%q", text)},
+		{Name: "V", Type: reflect.TypeOf(""), Tag: fmt.Sprintf("value:%q", text+",required=false")},
+	}
+	h := world.NewHolder(world.BuildStruct(fields))
+	g := world.NewG(c.Rng)
+	g.Sc.Config = string(b)
+	r := world.Start(g.Sc, world.Options{Extra: []any{h, world.NewLabelPP()}, NoTracer: true, BinderBudget: 20000})
+	c.Count("starts", 1)
+	detail := map[string]any{"tag_text": text, "config": string(b), "model_replacement": want, "outcome": core.Short(r.OutcomeDetail(), 300)}
+	if r.Outcome() != "ok" {
+		if abnormal(r.Outcome()) {
+			c.Fail("", fmt.Sprintf("tag text %q on a user-defined tag / logger tag: %s", text, r.OutcomeDetail()), detail)
+		}
+		return
+	}
+	hv := reflect.ValueOf(h).Elem()
+	vGot := hv.Field(2).String()
+	if vGot != want {
+		return // a sniffable replacement etc.: the value path is judged by the main family
+	}
+	if got := hv.Field(0).String(); got != want {
+		c.Fail("", fmt.Sprintf("user-defined tag label:%q: its processor was handed %q, the replacement text is %q (a value tag with the same text gives %q)", text, got, want, vGot), detail)
+		return
+	}
+	if l, ok := hv.Field(1).Interface().(syslog.Logger); ok && l != nil {
+		if pref, known := world.PrefixOf(l); known && want != "" && pref != want {
+			c.Fail("", fmt.Sprintf("logger:%q: the logger was made for prefix %q, the replacement text is %q", text, pref, want), detail)
+			return
+		}
+	}
+	c.Count("other_tag_cases_checked", 1)
+	if strings.Contains(text, "${") {
+		c.Nontrivial("othertags|" + text + "|" + want)
+	}
 }
